@@ -1,6 +1,6 @@
 from engine import Query
 META = {
- 'functions': ['StringUtils::IsLess/IsGreater/IsEqual (StringUtils.hpp)', 'StringView operators (StringView.hpp)'],
+ 'functions': ['StringUtils::IsLess/IsGreater/IsEqual (StringUtils.hpp)', 'StringView operators, both overloads (StringView.hpp)', 'String operators ==, !=, <, <=, >, >= for String and for NUL-terminated right operands, String::IsEqual (String.hpp:162-224)'],
  'bounds': 'strings of length <= N code units (N=4 quick, 5 thorough), all code-unit values, char/char16_t/char32_t',
  'outside': 'strings longer than N',
  'assumptions': [],
@@ -12,6 +12,9 @@ def queries(tier):
         b = {'IsLess|IsGreater|IsEqual|ref_cmp|vf_buf.*': N + 1}
         for e in ('h_order', 'h_transitive', 'h_view_ops'):
             qs.append(Query('strings/%s/%s/N%d' % (e, ch, N), 'C15_strings.cpp', e, {'N': N, 'CHAR': ch}, bounds=b, timeout=300))
+        b2 = dict(b); b2.update({'Count': N + 2, 'make_cstr': N + 2, 'operator==': N + 2, 'Copy|vf_mem.*': 4 * (N + 1) + 1, 'h_string_ops|h_view_cstr': N + 2})
+        for e in ('h_view_cstr', 'h_string_ops'):
+            qs.append(Query('strings/%s/%s/N%d' % (e, ch, N), 'C15_strings.cpp', e, {'N': N, 'CHAR': ch}, bounds=b2, default_unwind=N + 2, timeout=300))
     return qs
 
 # ---- merged parts: sorting (C13 round) and Value comparisons (C12 round) ----
